@@ -184,6 +184,9 @@ func (ex *Exec) step(st *State, fc *FnCtx, in ssa.Instruction, pred *ssa.BasicBl
 		ex.setComp(st, compMapPT(mt.Key(), mt.Elem()), store(pc, r, Term{"((as const " + ps + ") false)", ps}))
 		lc := ex.mapLComp(st.heap)
 		ex.setComp(st, compMapL(), store(lc, r, bv64(0)))
+		if mapIsLocal(x) {
+			st.localMaps = append(st.localMaps, localMap{r, mt.Key(), mt.Elem()})
+		}
 		st.env[x] = r
 	case *ssa.MakeSlice:
 		st.env[x] = ex.makeSlice(st, fc, x)
@@ -692,4 +695,73 @@ func (ex *Exec) constGlobal(v *types.Var) (Term, bool) {
 		ex.constGlobals = append(ex.constGlobals, name)
 	}
 	return Term{name, sIface}, true
+}
+
+
+// mapIsLocal: the map made here is only ever stored into one private local
+// variable and used through that variable for lookups, updates, ranges and
+// len: its reference never reaches a callee or the heap, so no call can change it.
+func mapIsLocal(mk *ssa.MakeMap) bool {
+	refs := mk.Referrers()
+	if refs == nil {
+		return false
+	}
+	var cell *ssa.Alloc
+	for _, r := range *refs {
+		switch x := r.(type) {
+		case *ssa.Store:
+			a, ok := x.Addr.(*ssa.Alloc)
+			if !ok || x.Val != mk || !isPrivateAlloc(a) || (cell != nil && cell != a) {
+				return false
+			}
+			cell = a
+		case *ssa.DebugRef:
+		case *ssa.MapUpdate:
+			if x.Map != mk {
+				return false
+			}
+		default:
+			return false
+		}
+	}
+	if cell == nil {
+		return false
+	}
+	for _, r := range *cell.Referrers() {
+		switch x := r.(type) {
+		case *ssa.Store:
+			if x.Addr == cell && x.Val != mk {
+				return false
+			}
+		case *ssa.UnOp:
+			lrefs := x.Referrers()
+			if lrefs == nil {
+				continue
+			}
+			for _, u := range *lrefs {
+				switch y := u.(type) {
+				case *ssa.MapUpdate:
+					if y.Map != x {
+						return false
+					}
+				case *ssa.Lookup:
+					if y.X != x {
+						return false
+					}
+				case *ssa.Range:
+				case *ssa.DebugRef:
+				case *ssa.Call:
+					if b, ok := y.Call.Value.(*ssa.Builtin); !ok || (b.Name() != "len" && b.Name() != "delete") {
+						return false
+					}
+				default:
+					return false
+				}
+			}
+		case *ssa.DebugRef:
+		default:
+			return false
+		}
+	}
+	return true
 }
